@@ -18,7 +18,10 @@ from vf.gen_doc import gen_doc
 from vf.props.c02 import tag_boundaries
 
 PAIRS = [(88, False), (88, True), (40, False), (40, True), (12, False), (0, True), (20, True), (0, False)]
-_UNESC = re.compile(r"\\(?=[-*+>#=~`_]|[.)])")
+# escapes the renderer keeps for ever once the wrapper has added them (every non-period escape);
+# an escaped period is un-escaped again by render_literal, so a surviving '\.' is NOT part of this finding
+_UNESC = re.compile(r"\\(?=[-*+>#=~`_)]|\.)")
+_MIDLINE_ESC_PERIOD = re.compile(r"(?m)^[ >]*\S.*?[ \t]\d+\\\.")
 _WS = re.compile(r"\s+")
 
 
@@ -45,6 +48,19 @@ class C03(DocProp):
             pairs = [r.sample(PAIRS, 2) for _ in range(3)]
             yield dict(c, kind="history", pairs=pairs,
                        base=rand_opts(r, force={"width": 0, "semantic": False}))
+            n = r.randint(6, 14)
+            words = [plain_word(r, 9) for _ in range(n)]
+            for _ in range(r.randint(1, 2)):
+                words[r.randint(2, n - 2)] = r.choice(["{% tag %}", "{{ v }}", "<!-- c -->", "{# n #}", "`code`", "[l](http://u.v)"])
+            pos = sorted(r.sample(range(2, n), r.randint(1, 2)))
+            for p_ in pos:
+                words[p_] = r.choice(["2019.", "80)", "12.", "|x", "-x", "+1"])
+                if words[p_ - 1].endswith(("%}", "}}", "-->", "#}")):
+                    words[p_ - 1] = "word"
+            if not words[0][:1].isalpha():
+                words[0] = "Start"
+            yield {"kind": "relayout2", "words": words, "breaks": [p_ - 1 for p_ in pos],
+                   "opts": [rand_opts(r, widths=[0, 40, 88, 120], force={"ellipses": False, "smartquotes": False}) for _ in range(2)]}
             n = r.randint(5, 16)
             words = [plain_word(r, 9) for _ in range(n)]
             for _ in range(r.randint(1, 2)):
@@ -54,6 +70,30 @@ class C03(DocProp):
             yield {"kind": "history", "text": " ".join(words) + "\n", "profile": "hazard", "feats": ["hazard"],
                    "pairs": [[(r.randint(4, 20), False), (r.randint(20, 60), False)], [(12, False), (88, True)]],
                    "base": rand_opts(r, force={"width": 0, "semantic": False, "smartquotes": False, "ellipses": False})}
+
+    def _check_relayout2(self, case, col):
+        """Explicit pair of layouts of one top-level paragraph: a soft break before a word that only looks
+        like a list item / table row (valid paragraph continuation: '2019.', '80)', '|x'); the premise
+        (both layouts are the same document for flowmark's reader) is checked before judging."""
+        from vf import astn
+
+        words, brk = case["words"], case["breaks"]
+        a = " ".join(words) + "\n"
+        b = "".join(w + ("\n" if i in brk else " ") for i, w in enumerate(words)).rstrip() + "\n"
+        if astn.tree(a) != astn.tree(b):
+            col.count("relayout2_premise_failed_layouts_read_differently")
+            return
+        for o in case["opts"]:
+            col.case(2)
+            col.mon("relayout", 2)
+            oa, ob = fm.fmt(a, **o), fm.fmt(b, **o)
+            if isinstance(oa, fm.Raised) or isinstance(ob, fm.Raised):
+                continue
+            col.distinct("relayout2", a, tuple(brk), sorted(o.items()))
+            if oa != ob:
+                d = first_line_diff(oa, ob)
+                desc = self.classify(oa, ob, o, "relayout", dict(case, profile="listlike-continuation"), d)
+                col.violation("relayout", desc, dict(case, opts=[o]), {"layout_a": a, "layout_b": b, "line": d[0], "a": d[1], "b": d[2]})
 
     def check(self, case, col: Collector):
         getattr(self, "_check_" + case["kind"])(case, col)
@@ -102,7 +142,10 @@ class C03(DocProp):
             steps.append((f"C03/{kind}/caused-by/ellipsis-at-line-start", lambda t: sq(sq(t).replace(" ...", "...").replace("... ", "..."))))
         if o.get("smartquotes") and kind == "history":
             steps.append(("C03/history/caused-by/smartquotes-needs-second-pass", unq))
-        steps.append((f"C03/{kind}/sticky-escape", unesc))
+        # an escaped period is un-escaped by the renderer wherever it is not needed, so in the known
+        # mechanism a '\.' can only ever sit at the start of a line; one in the middle of a line is something else
+        if kind == "history" and not (_MIDLINE_ESC_PERIOD.search(a) or _MIDLINE_ESC_PERIOD.search(b)):
+            steps.append((f"C03/{kind}/sticky-escape", unesc))
         na, nb = a, b
         for name, fn in steps:
             if ws(fn(a)) == ws(fn(b)):
